@@ -45,6 +45,16 @@ Theorem C14_identified : forall h modname enum base dropo d fs,
 Proof. exact identified_gen. Qed.
 Print Assumptions C14_identified.
 
+(* ... and so does a NESTED instance: when every object reached through dataclass-typed fields is identified below the
+   declared type of its field (hid), the whole tree comes back equal - drop_extra_fields=False travels down the recursion,
+   also into the subclass the search selected, whether or not any class sets decode_into_subclasses *)
+Theorem C14_identified_nested : forall h modname enum base dropo v,
+  wf_hier_gen h = true -> enum_ok h enum ->
+  hid h base v = true -> eff_drop_gen h base dropo = false ->
+  from_ser_gen h modname enum base dropo (to_ser_gen modname false v) = Ok v.
+Proof. exact identified_nested_gen. Qed.
+Print Assumptions C14_identified_nested.
+
 (* drop_extra_fields=True (or the default with decode_into_subclasses off): exactly the base class, with exactly its fields *)
 Theorem C14_drop : forall h modname enum base dropo kvs v,
   sf_get DC_TYPE_KEY kvs = None -> eff_drop_gen h base dropo = true ->
@@ -99,6 +109,8 @@ Example C14_nonvacuous :
   /\ wf_hier_gen noninit_h = true
   /\ from_ser_gen noninit_h "m" noninit_enum "Base" None (to_ser_gen "m" false noninit_v) = Ok noninit_v
   /\ from_ser_gen noninit_h "m" noninit_enum "Base" None (to_ser_gen "m" false noninit_v2) = Ok noninit_v2
+  /\ wf_hier_gen nest_h = true /\ hid nest_h "Base" nest_v = true /\ eff_drop_gen nest_h "Base" None = true
+  /\ from_ser_gen nest_h "m" nest_enum "Base" (Some false) (to_ser_gen "m" false nest_v) = Ok nest_v
   /\ from_ser_gen refute_h "m" refute_enum "H" None (to_ser_gen "m" true refute_v)
      = Ok (VObj "H" (VCons "xs" (VList (VCons "" (VObj "D3" (VCons "a" (VInt 1) (VCons "b" (VInt 2) VNil))) VNil)) VNil)).
 Proof. vm_compute. repeat split; try reflexivity; eexists; repeat split; reflexivity. Qed.
